@@ -2,7 +2,7 @@
    K is ANY commutative ring (so Z, Q, R, C, ...), F ANY field; a tree is a rooted tensor tree
    (Model.ttree) - a hyper-index is a copy-tensor node (last two theorems). *)
 From Coq Require Import ZArith Arith List Bool Ring Field.
-From QV Require Import Base.Sums C14.Model C14.Combine C14.Contract C14.Sched C14.Tree C14.Final.
+From QV Require Import Base.Sums C14.Model C14.Combine C14.Contract C14.Sched C14.Tree C14.Final C14.GaugeModel C14.Gauge.
 Import ListNotations.
 Close Scope Z_scope.
 
@@ -256,6 +256,69 @@ Theorem C14_hyper_index_region_is_copy_tensor :
 Proof. exact sumW_delta. Qed.
 Print Assumptions C14_hyper_index_region_is_copy_tensor.
 
+(* D2BP.gauge_insert / gauge_temp / gate_: the two factors built from the eigen-decomposition m = W s^2 W^dag of a
+   boundary message (model C14/GaugeModel.v: msqrt = ldmul(s, dag(W)), minv = rddiv(W, s), Tensor.gate_ on a fibre =
+   gate1).  K: any commutative ring with a conjugation; s: ANY spectrum with inverses (so smudge and power are covered);
+   W: any matrix with W W^dag = 1 (what eigh returns). *)
+Theorem C14_gauge_inverse_factor_cancels_sqrt_factor :
+  forall (K : Type) (k0 k1 : K) (kadd kmul ksub : K -> K -> K) (kopp : K -> K),
+  ring_theory k0 k1 kadd kmul ksub kopp eq ->
+  forall (kconj : K -> K) (n : nat) (W : mat K) (s sinv : nat -> K),
+  (forall i j, i < n -> j < n -> sum K k0 kadd n (fun k => kmul (W i k) (kconj (W j k))) = mident K k0 k1 i j) ->
+  (forall k, k < n -> kmul (s k) (sinv k) = k1) ->
+  forall i j, i < n -> j < n ->
+  mmul K k0 kadd kmul n (minv K kmul sinv W) (msqrt K kmul kconj s W) i j = mident K k0 k1 i j.
+Proof. exact gauge_inverse_cancels. Qed.
+Print Assumptions C14_gauge_inverse_factor_cancels_sqrt_factor.
+
+(* gate_(msqrt, ix) followed by gate_(minv, ix) (gauge_temp, the un-gauging after gate_) restores every fibre of the
+   tensor along ix, hence the tensor, hence the denoted network *)
+Theorem C14_gauge_then_ungauge_is_identity :
+  forall (K : Type) (k0 k1 : K) (kadd kmul ksub : K -> K -> K) (kopp : K -> K),
+  ring_theory k0 k1 kadd kmul ksub kopp eq ->
+  forall (kconj : K -> K) (n : nat) (W : mat K) (s sinv : nat -> K),
+  (forall i j, i < n -> j < n -> sum K k0 kadd n (fun k => kmul (W i k) (kconj (W j k))) = mident K k0 k1 i j) ->
+  (forall k, k < n -> kmul (s k) (sinv k) = k1) ->
+  forall (v : nat -> K) (i : nat), i < n ->
+  gate1 K k0 kadd kmul n (minv K kmul sinv W) (gate1 K k0 kadd kmul n (msqrt K kmul kconj s W) v) i = v i.
+Proof. exact gauge_round_trip. Qed.
+Print Assumptions C14_gauge_then_ungauge_is_identity.
+
+(* the inserted factor is a square root of the message in the layout D2BP stores it (bra axis first): the plain inner
+   product of two gauged fibres is the message-weighted inner product of the original fibres - the gauged patch sees
+   the identity as its environment.  Any W, any real spectrum. *)
+Theorem C14_gauged_inner_product_is_message_form :
+  forall (K : Type) (k0 k1 : K) (kadd kmul ksub : K -> K -> K) (kopp : K -> K),
+  ring_theory k0 k1 kadd kmul ksub kopp eq ->
+  forall kconj : K -> K,
+  (forall a b, kconj (kadd a b) = kadd (kconj a) (kconj b)) ->
+  (forall a b, kconj (kmul a b) = kmul (kconj a) (kconj b)) ->
+  (forall a, kconj (kconj a) = a) ->
+  forall (n : nat) (W : mat K) (s : nat -> K),
+  (forall k, k < n -> kconj (s k) = s k) ->
+  forall v w : nat -> K,
+  inner K k0 kadd kmul kconj n (gate1 K k0 kadd kmul n (msqrt K kmul kconj s W) v)
+                               (gate1 K k0 kadd kmul n (msqrt K kmul kconj s W) w)
+  = mform K k0 kadd kmul kconj n (msg K k0 kadd kmul kconj n s W) v w.
+Proof. exact gauged_inner_is_message_form. Qed.
+Print Assumptions C14_gauged_inner_product_is_message_form.
+
+(* a transpose in place of the dagger (inverse factor conj(W) s^-1) gives conj(W W^T) instead of the identity: right for
+   real orthogonal W (real symmetric messages) only *)
+Theorem C14_transposed_inverse_factor_gives_W_Wt :
+  forall (K : Type) (k0 k1 : K) (kadd kmul ksub : K -> K -> K) (kopp : K -> K),
+  ring_theory k0 k1 kadd kmul ksub kopp eq ->
+  forall kconj : K -> K,
+  (forall a b, kconj (kadd a b) = kadd (kconj a) (kconj b)) ->
+  (forall a b, kconj (kmul a b) = kmul (kconj a) (kconj b)) ->
+  forall (n : nat) (W : mat K) (s sinv : nat -> K),
+  (forall k, k < n -> kmul (s k) (sinv k) = k1) ->
+  forall i j,
+  mmul K k0 kadd kmul n (minv_transposed K kmul kconj sinv W) (msqrt K kmul kconj s W) i j
+  = kconj (sum K k0 kadd n (fun k => kmul (W i k) (W j k))).
+Proof. exact transposed_inverse_product. Qed.
+Print Assumptions C14_transposed_inverse_factor_gives_W_Wt.
+
 (* non-vacuity: a 3-tensor chain  A[3] - B[3,2] - C[2]  over Z, rooted at A (dummy top leg of size 1):
    value, exact messages, one raw BP round from all-ones messages, and the Bethe identity with
    un-normalised exact messages scaled by 2 and 5. *)
@@ -270,4 +333,16 @@ Example C14_examples :
   /\ exact_table exA = [([0%nat], [23; 53; 83], [1; 1; 3]); ([0%nat; 0%nat], [7; 8], [19; 24])]
   /\ Zlprod (ZnodeZs exS [] exA) = Zvalue exA * Zlprod (ZbondZs exS [] exA)
   /\ raw_table exA (fun _ _ _ => 1) = [([0%nat], [3; 7; 11], [1; 1; 3]); ([0%nat; 0%nat], [7; 8], [9; 12])].
+Proof. vm_compute. repeat split. Qed.
+
+(* non-vacuity of the gauge theorems over the Gaussian integers: W = [[0, i], [1, 0]] is unitary, spectrum (1, -1)
+   (its own inverse): minv . msqrt = 1, while the transposed rule gives diag(-1, 1). *)
+From QV Require Import Base.TNExec.
+Definition exW : mat G := gmat_of [[(0, 0); (0, 1)]; [(1, 0); (0, 0)]].
+Definition exs : nat -> G := gvec_of [1; -1].
+Example C14_gauge_examples :
+  gtab 2 (mmul G g0 gadd gmul 2 exW (fun i j => gconj (exW j i))) = [g1; g0; g0; g1]
+  /\ gtab 2 (mmul G g0 gadd gmul 2 (minv G gmul exs exW) (msqrt G gmul gconj exs exW)) = [g1; g0; g0; g1]
+  /\ gtab 2 (mmul G g0 gadd gmul 2 (minv_transposed G gmul gconj exs exW) (msqrt G gmul gconj exs exW))
+     = [(-1, 0); g0; g0; g1].
 Proof. vm_compute. repeat split. Qed.
